@@ -231,23 +231,23 @@ def run(tier, seed):
         ds = [1, 2, 3, 4, 5, 6, 8, 10, 13, 17, 22, 30, 40]
         reps = 2
     else:
-        ds = list(range(1, 41)) + [50, 64, 80, 100, 128, 160, 200]
+        ds = list(range(1, 41)) + [50, 64, 80, 100, 128]       # the certificate costs ~d^3: 45 s at d=64, 200 s at 100, 410 s at 128
         reps = 3
     for d in ds:
-        for _ in range(reps if d < 128 else 1):       # the exact certificate at d >= 128 takes tens of minutes per instance
+        for _ in range(reps if d <= 40 else 1):
             delta = float(10 ** rng.uniform(-3, -0.02))
             one(ctx, FP, d, delta)
         if d in (1, 2, 5, 13):
             for delta in (0.999, 1e-6, 0.5):       # ends of (0,1) and the library's documented example value
                 one(ctx, FP, d, delta)
     for d, g in ([(3, 0.5), (12, 0.1), (40, 0.3), (110, 0.05)] if tier == "quick" else
-                 [(1, 0.9), (3, 0.5), (12, 0.1), (40, 0.3), (64, 0.02), (110, 0.05), (150, 0.15), (200, 0.3)]):
+                 [(1, 0.9), (3, 0.5), (12, 0.1), (40, 0.3), (64, 0.02), (110, 0.05)]):
         one_gamma(ctx, FP, d, g)
     sweep_all_lengths(ctx, FP, rng, set(ds))
     ctx.assumptions = ["the closed form for all (d, delta) at once is the analytic theorem of Yoder-Low-Chuang (not formalised): it is certified per (d, delta) instance, over the whole continuum of lambda",
                        "T_{1/L}(1/delta) is represented by a rational x with |1/T_L(x) - delta| <= 1e-12 delta (checked exactly)"]
     return ctx.finish(
-        rule="search lengths d (listed, up to 40 quick / 200 thorough) x delta log-uniform in (1e-3, 0.95) with the proven certificate, plus EVERY d in 1..200 "
+        rule="search lengths d (listed, up to 40 quick / 128 thorough) x delta log-uniform in (1e-3, 0.95) with the proven certificate, plus EVERY d in 1..200 "
              "once (layout and interleaving exact, probability screened in floating point, certificate on whatever looks off); a case is one "
              "FPSearch().generate(d, delta) (plus the alpha vector and the gamma form); distinct = distinct (d, delta)")
 
